@@ -50,6 +50,8 @@ const (
 	knSegment           // Segment          -> KSegment α
 	knRect              // Rect             -> KRect α
 	knRay               // RaycastResult    -> KRaycastResult
+	knInt               // int              -> Int            (series.go only)
+	knPoints            // []Point          -> Array (KPoint α) (series.go only)
 )
 
 type knField struct {
@@ -101,6 +103,10 @@ func (t knType) lean() string {
 		return "α"
 	case knBool:
 		return "Bool"
+	case knInt:
+		return "Int"
+	case knPoints:
+		return "Array (KPoint α)"
 	}
 	if s := knStructByType(t); s != nil {
 		return s.leanType
@@ -116,6 +122,10 @@ func (t knType) String() string {
 		return "untyped integer constant"
 	case knBool:
 		return "bool"
+	case knInt:
+		return "int"
+	case knPoints:
+		return "[]Point"
 	}
 	if s := knStructByType(t); s != nil {
 		return s.goName
@@ -369,6 +379,9 @@ type knTr struct {
 	pkg *knPackage
 	fn  *knFunc
 	tmp int
+	// ext, when set (series.go), is asked first about every expression: it returns ok = false
+	// for the forms it leaves to expr
+	ext func(e ast.Expr, env *knEnv) (x knExpr, ok bool, err error)
 }
 
 func (t *knTr) pos(n ast.Node) string {
@@ -457,6 +470,11 @@ func knAssignable(from, to knType) bool {
 }
 
 func (t *knTr) expr(e ast.Expr, env *knEnv) (knExpr, error) {
+	if t.ext != nil {
+		if x, ok, err := t.ext(e, env); ok || err != nil {
+			return x, err
+		}
+	}
 	switch e := e.(type) {
 	case *ast.ParenExpr:
 		return t.expr(e.X, env)
